@@ -970,7 +970,9 @@ class OdeSystem(object):
         else:
             tf = self.tf
 
-        if D.ar_numpy.abs(tf - self.__t[self.counter]) < D.epsilon(self.__y[self.counter].dtype):
+        if D.ar_numpy.abs(tf - self.__t[self.counter]) < D.tol_epsilon(self.__y[self.counter].dtype):
+            # already at the target as far as the loop below can tell (its guard uses the same tolerance):
+            # nothing to do, and the step size must not be clipped to the remaining rounding-level distance
             return
         if self.__int_status == 2 or isinstance(self.__int_status, (etypes.FailedIntegration, KeyboardInterrupt)):
             # a new integration supersedes the outcome of an earlier failed or event-terminated call
